@@ -136,6 +136,12 @@ def tolerances(c, sref, Cphi, Cf, f, dt, theta, rpts):
     lip = 1.0
     dfoot = 8 * abs(dt) / c["B0"] * vel_err * (1 + lip) + 16 * EPS * (TWO_PI + rpts[-1])
     scale = float(np.abs(f).max()) + 1e-300
+    if not c.get("nul"):
+        # feet outside the radial domain take equilibrium values, whatever the magnitude of f
+        from pygyro.initialisation.constants import Constants
+        cc = Constants()
+        cc.rMin, cc.rMax = c["rmin"], c["rmax"]
+        scale += float(np.abs(advect.f_eq(np.array([rpts[0], rpts[-1]]), c["v"], advect.const_dict(cc))).max())
     return 1e3 * EPS * sref.cond * scale + (gq + gr) * dfoot, (gq, gr)
 
 
@@ -155,7 +161,8 @@ def predicate(c):
     dth, dr = TWO_PI / c["ntheta"], (rpts[-1] - rpts[0]) / (len(rpts) - 1)
     speed = max(float(np.abs(a0q).max()) / dth, float(np.abs(a0r).max()) / dr, 1e-300)
     dt = c["disp"] / speed
-    if not np.isfinite(dt) or abs(dt) > 1e6:
+    if not np.isfinite(dt) or abs(dt) > 1e6 or speed < 1e-9:
+        # (numerically) constant potential: the drift is rounding noise, do not size dt by it
         dt = math.copysign(1.0, c["disp"])
     labels = ["cu" if b1.cubic_uniform else "nu", "explicit" if c["explicit"] else "implicit",
               "nulEdge" if c["nul"] else "fEqEdge"]
@@ -364,6 +371,8 @@ def reuse_pred(c):
         a0q, a0r, _ = advect.poloidal_velocity(sref, Cphi, Q, R, c["B0"], rpts[0], rpts[-1])
         speed = max(float(np.abs(a0q).max()) / dth, float(np.abs(a0r).max()) / dr, 1e-300)
         dt = disp / speed
+        if not np.isfinite(dt) or abs(dt) > 1e6 or speed < 1e-9:
+            dt = math.copysign(1.0, disp)
         fin = f.copy()
         want, info = advect.poloidal_step_ref(fin, Cphi, sref, theta, rpts, dt, c["v"], c["B0"], cd, c["nul"], explicit=True)
         with crash_is_violation("C12:step", "PoloidalAdvection.step (re-used operator, stage %d)" % k):
